@@ -424,3 +424,15 @@ Print Assumptions counts_per_sample_stats_is_source_wf.
 Example counts_per_sample_stats_hyp_sat : NoDup (r_sids ex_rt) /\ dims_ok ex_rt /\
   compute_counts_per_sample_stats ex_rt false = (0, 7, (7, 2), (14, 4), [(1, 5); (2, 2); (3, 0); (4, 7)])%Z.
 Proof. destruct ex_rt_wf as (_ & N & D & _). split; [exact N|]. split; [exact D|]. vm_compute. reflexivity. Qed.
+
+(* Table.is_empty and Table.get_table_density as tools/py2v_sum regenerates them from biom/table.py
+   (Gen/SummaryTableGen.v over Gen/SumTablePrelude.v; the property nnz, ids, shape pinned by AST hash)
+   are the hand model's r_empty and r_density, for every representation. *)
+From BiomV Require Import Gen.SumTablePrelude Gen.SummaryTableGen Proofs.GenBridgeSummaryTableProofs.
+Theorem is_empty_is_source : forall rt, is_empty rt = r_empty rt.
+Proof. exact is_empty_bridge. Qed.
+Print Assumptions is_empty_is_source.
+
+Theorem get_table_density_is_source : forall rt, get_table_density rt = r_density rt.
+Proof. exact get_table_density_bridge. Qed.
+Print Assumptions get_table_density_is_source.
